@@ -293,6 +293,25 @@ func (st *State) ifaceClosureG(binders, read, guard string) {
 	}
 	st.sc.emit("(assert (forall %s (! (=> %s (and %s)) :pattern (%s))))", binders, guard, strings.Join(parts, " "), read)
 }
+func (st *State) declArrType() {
+	if st.sc.declared["fun:arr.type"] {
+		return
+	}
+	st.sc.declFun("arr.type", []Sort{SInt}, SInt)
+	st.sc.emit("(assert (= (arr.type 0) 0))")
+}
+
+// assumeArrType: the array behind a slice value of static type []E is an array of E
+func (st *State) assumeArrType(v Term, elem types.Type) {
+	st.declArrType()
+	key := "arrtype:" + v.S
+	if st.sc.declared[key] {
+		return
+	}
+	st.sc.declared[key] = true
+	st.sc.emit("(assert (or (= (s-arr %s) 0) (= (arr.type (s-arr %s)) %d)))", v.S, v.S, st.u().typeID(elem))
+}
+
 // declOwns: clo.owns(f, o) -- cell o holds a variable captured by the function value f. Captured variables
 // are heap cells, never package-level or ghost variables (whose addresses are the small constants).
 func (st *State) declOwns() {
